@@ -72,6 +72,13 @@ def determinism(tier, rest):
                     print("  first pool difference at run", x, y)
                     break
     os.makedirs(os.path.join(core.VERIF, "selftest"), exist_ok=True)
+    if only and os.path.exists(os.path.join(core.VERIF, "selftest", "determinism.json")):
+        # a partial re-run (after a harness correction) replaces only its own rows
+        old = json.load(open(os.path.join(core.VERIF, "selftest", "determinism.json")))
+        merged = dict(old.get("table", {}))
+        for k_, v_ in table.items():
+            merged[k_] = dict(v_, rerun=True)
+        table = merged
     with open(os.path.join(core.VERIF, "selftest", "determinism.json"), "w") as f:
         json.dump({"seed": core.verif_seed(), "wall_s": round(time.time() - t0, 1), "table": table}, f, indent=1, sort_keys=True)
     return 0 if bad == 0 else 1
